@@ -1,7 +1,8 @@
 /-
 C06 — the tokenizer and the parser read a rendered grammar tree back (`render` round trip).
 
-* `nextToken_word`: a rendered leaf — field prefix followed by an unquoted value of plain bytes, or by the
+* `nextToken_word`: a rendered leaf — field prefix followed by an unquoted value of plain bytes and backslash
+  escapes, or by the
   documented quoted form of any value — is one token whose text is prefix ++ value and whose input is exactly the
   rendering, whatever follows it (end of input, a blank or a closing parenthesis);
 * `setType` then gives it the token kind of its field and strips the prefix (`token_roundtrip_*`);
@@ -77,22 +78,97 @@ theorem parseStringLiteral_quote (t rest : B) :
   congr 2
   simp; omega
 
-/-- the value part of a rendered leaf: the text itself (plain bytes only) or its quoted form -/
-def ValueOK (V t : B) : Prop := (V = t ∧ ∀ c ∈ t, isDflt c = true) ∨ V = quote t
+mutual
+/-- unquoted values: plain bytes (no blank, quote, parenthesis) and backslash escapes (`\` followed by any byte) -/
+def escPlain : B → Bool
+  | [] => true
+  | c :: r => if c = 92 then escTail r else isDflt c && escPlain r
+/-- after a backslash: some byte must follow -/
+def escTail : B → Bool
+  | [] => false
+  | _ :: r2 => escPlain r2
+end
+
+mutual
+/-- number of escape pairs (each costs the tokenizer's loop one turn for two bytes) -/
+def escCount : B → Nat
+  | [] => 0
+  | c :: r => if c = 92 then escCountTail r else escCount r
+def escCountTail : B → Nat
+  | [] => 0
+  | _ :: r2 => 1 + escCount r2
+end
+
+theorem dflt_ne_92 {c : Nat} (hc : isDflt c = true) : c ≠ 92 := by
+  intro h0; subst h0; simp [isDflt] at hc
+
+theorem escPlain_of_dflt : ∀ t : B, (∀ c ∈ t, isDflt c = true) → escPlain t = true
+  | [], _ => rfl
+  | c :: r, h => by
+    have hc := h c (by simp)
+    simp only [escPlain, dflt_ne_92 hc, if_false, hc, Bool.true_and]
+    exact escPlain_of_dflt r (fun x hx => h x (by simp [hx]))
+
+theorem escPlain_append_dflt : ∀ (P t : B), (∀ c ∈ P, isDflt c = true) → escPlain t = true → escPlain (P ++ t) = true
+  | [], t, _, ht => ht
+  | c :: r, t, h, ht => by
+    have hc := h c (by simp)
+    simp only [List.cons_append, escPlain, dflt_ne_92 hc, if_false, hc, Bool.true_and]
+    exact escPlain_append_dflt r t (fun x hx => h x (by simp [hx])) ht
+
+theorem escPlain_head {c : Nat} {r : B} (h : escPlain (c :: r) = true) : c = 92 ∨ isDflt c = true := by
+  by_cases h92 : c = 92
+  · exact Or.inl h92
+  · simp only [escPlain, h92, if_false, Bool.and_eq_true] at h
+    exact Or.inr h.1
+
+/-- the tokenizer's loop copies a word of plain bytes and escapes unchanged -/
+theorem ntLoop_esc : ∀ (w rest : B) (fuel pc : Nat) (text : B), escPlain w = true →
+    ntLoop (fuel + w.length) (w ++ rest) pc text = ntLoop (fuel + escCount w) rest pc (text ++ w)
+  | [], rest, fuel, pc, text, _ => by simp [escCount]
+  | c :: r, rest, fuel, pc, text, h => by
+    by_cases h92 : c = 92
+    · subst h92
+      cases r with
+      | nil => simp [escPlain, escTail] at h
+      | cons c2 r2 =>
+        have h2 : escPlain r2 = true := by simpa [escPlain, escTail] using h
+        have hf : fuel + (92 :: c2 :: r2).length = ((fuel + 1) + r2.length) + 1 := by simp; omega
+        rw [hf]
+        simp only [List.cons_append]
+        conv => lhs; unfold ntLoop
+        simp only [show (92 : Nat) ≠ 40 by decide, show (92 : Nat) ≠ 41 by decide, show (92 : Nat) ≠ 34 by decide,
+          if_false, if_true]
+        rw [ntLoop_esc r2 rest (fuel + 1) pc (text ++ [92, c2]) h2]
+        have : fuel + 1 + escCount r2 = fuel + escCount (92 :: c2 :: r2) := by simp [escCount, escCountTail]; omega
+        rw [this]
+        simp
+    · simp only [escPlain, h92, if_false, Bool.and_eq_true] at h
+      have hc := h.1
+      simp [isDflt] at hc
+      obtain ⟨⟨⟨⟨⟨⟨h1, h2⟩, h3⟩, h4⟩, h5⟩, h6⟩, h7⟩ := hc
+      have hf : fuel + (c :: r).length = (fuel + r.length) + 1 := by simp; omega
+      rw [hf, List.cons_append]
+      conv => lhs; unfold ntLoop
+      simp [h1, h2, h3, h4, h5, h6, h7]
+      rw [ntLoop_esc r rest fuel pc (text ++ [c]) h.2]
+      simp [escCount, h92]
+termination_by w => w.length
+
+/-- the value part of a rendered leaf: the text itself (plain bytes and backslash escapes) or its quoted form -/
+def ValueOK (V t : B) : Prop := (V = t ∧ escPlain t = true) ∨ V = quote t
 
 /-- the tokenizer's loop on `P ++ V ++ rest`: it copies the prefix, reads the value, and stops at `rest` -/
 theorem ntLoop_word (P V t rest : B) (hP : ∀ c ∈ P, isDflt c = true) (hV : ValueOK V t) (hne : P ++ t ≠ [])
     (hf : followOK rest = true) :
     ntLoop ((P ++ V ++ rest).length + 1) (P ++ V ++ rest) 0 [] = .ok (rest, P ++ t, false) := by
   rcases hV with ⟨rfl, ht⟩ | rfl
-  · have hw : ∀ c ∈ P ++ V, isDflt c = true := by
-      intro c hc
-      rcases List.mem_append.mp hc with h | h
-      · exact hP c h
-      · exact ht c h
+  · have hw : escPlain (P ++ V) = true := escPlain_append_dflt P V hP ht
     have hl : (P ++ V ++ rest).length + 1 = (rest.length + 1) + (P ++ V).length := by simp; omega
-    rw [hl, ntLoop_plain (P ++ V) rest (rest.length + 1) 0 [] hw]
-    simpa using ntLoop_stop rest.length rest (P ++ V) hf hne
+    rw [hl, ntLoop_esc (P ++ V) rest (rest.length + 1) 0 [] hw]
+    have hf2 : rest.length + 1 + escCount (P ++ V) = (rest.length + escCount (P ++ V)) + 1 := by omega
+    rw [hf2]
+    simpa using ntLoop_stop _ rest (P ++ V) hf hne
   · have hl : (P ++ quote t ++ rest).length + 1 = ((quote t ++ rest).length + 1) + P.length := by simp; omega
     rw [hl, List.append_assoc, ntLoop_plain P (quote t ++ rest) _ 0 [] hP]
     simp only [List.nil_append]
@@ -219,10 +295,10 @@ theorem renderE_atom (f : Field) (a : Nat) (q : Bool) (t n : B) :
   simp [renderE, valueOf]
 
 /-- atoms whose rendering the tokenizer reads back: an unquoted value has only plain bytes (no blank, quote,
-    parenthesis, backslash); a bare pattern is non-empty, not a lone parenthesis, and — unquoted — does not start with
+    parenthesis) and backslash escapes; a bare pattern is non-empty, not a lone parenthesis, and — unquoted — does not start with
     `-` or a field prefix and is not the word `or`; a `meta.` name has only plain bytes -/
 def goodAtom (f : Field) (quoted : Bool) (t n : B) : Bool :=
-  (quoted || t.all isDflt) &&
+  (quoted || escPlain t) &&
   (match f with
    | .text => !t.isEmpty && t != [40] && t != [41] &&
        (quoted || (t.head? != some 45 && (findPrefix prefixes t).isNone && t != [111,114]))
@@ -230,7 +306,7 @@ def goodAtom (f : Field) (quoted : Bool) (t n : B) : Bool :=
    | _ => true)
 
 theorem valueOK_of_good {f : Field} {q : Bool} {t n : B} (h : goodAtom f q t n = true) : ValueOK (valueOf q t) t := by
-  simp only [goodAtom, Bool.and_eq_true, Bool.or_eq_true, List.all_eq_true] at h
+  simp only [goodAtom, Bool.and_eq_true, Bool.or_eq_true] at h
   cases q with
   | true => right; simp [valueOf]
   | false =>
@@ -321,7 +397,7 @@ theorem typeWord_dflt (v : Nat) : ∀ c ∈ typeWord v, isDflt c = true := by
 theorem token_case (fl : Nat) (rest : B) (hf : followOK rest = true) :
     nextToken (renderE (.caseD fl) ++ rest) = .ok (some ⟨tokCase, caseWord fl, renderE (.caseD fl)⟩) := by
   simp only [renderE]
-  rw [nextToken_word [99,97,115,101,58] (caseWord fl) (caseWord fl) rest (by decide) (Or.inl ⟨rfl, caseWord_dflt fl⟩)
+  rw [nextToken_word [99,97,115,101,58] (caseWord fl) (caseWord fl) rest (by decide) (Or.inl ⟨rfl, escPlain_of_dflt _ (caseWord_dflt fl)⟩)
     (by simp) (by simp) hf]
   rw [setType_prefixed [99,97,115,101,58] tokCase (by decide)]
   rfl
@@ -330,11 +406,11 @@ theorem token_type (a v : Nat) (rest : B) (hf : followOK rest = true) :
     nextToken (renderE (.typeD a v) ++ rest) = .ok (some ⟨tokType, typeWord v, renderE (.typeD a v)⟩) := by
   simp only [renderE]
   split
-  · rw [nextToken_word [116,121,112,101,58] (typeWord v) (typeWord v) rest (by decide) (Or.inl ⟨rfl, typeWord_dflt v⟩)
+  · rw [nextToken_word [116,121,112,101,58] (typeWord v) (typeWord v) rest (by decide) (Or.inl ⟨rfl, escPlain_of_dflt _ (typeWord_dflt v)⟩)
       (by simp) (by simp) hf]
     rw [setType_prefixed [116,121,112,101,58] tokType (by decide)]
     rfl
-  · rw [nextToken_word [116,58] (typeWord v) (typeWord v) rest (by decide) (Or.inl ⟨rfl, typeWord_dflt v⟩)
+  · rw [nextToken_word [116,58] (typeWord v) (typeWord v) rest (by decide) (Or.inl ⟨rfl, escPlain_of_dflt _ (typeWord_dflt v)⟩)
       (by simp) (by simp) hf]
     rw [setType_prefixed [116,58] tokType (by decide)]
     rfl
